@@ -291,6 +291,39 @@ def gen_needles(rng):
     return assemble([a, b], "interpenetrating-needles", True)
 
 
+def gen_spike(rng):
+    """a small tetrahedral spike poking through ONE face of a much larger convex part, away from that face's
+    centre: few crossing pairs, faces of very different size"""
+    for _ in range(200):
+        a = PARTS[rng.choice(["box", "convex-hull", "prism"])](rng)
+        i = rng.randrange(len(a["faces"]))
+        p = a["verts"][a["faces"][i]]
+        n = np.cross(p[1] - p[0], p[2] - p[0])
+        L = math.sqrt(float(np.linalg.norm(n)))
+        n = n / np.linalg.norm(n)
+        w = [0.6, 0.2, 0.2]
+        rng.shuffle(w)
+        q = w[0] * p[0] + w[1] * p[1] + w[2] * p[2]
+        h = 0.12 * L
+        e1 = (p[1] - p[0]) / np.linalg.norm(p[1] - p[0])
+        e2 = np.cross(n, e1)
+        ph = rng.uniform(0, 2 * math.pi)
+        base = [q + h * n + 0.25 * h * (math.cos(ph + k * 2 * math.pi / 3) * e1 + math.sin(ph + k * 2 * math.pi / 3) * e2)
+                for k in range(3)]
+        tip = q - 0.4 * h * n
+        if not inside_convex(a, tip, -1e-3 * L):
+            continue
+        vb = np.array(base + [tip])
+        c = vb.mean(axis=0)
+        b = {"kind": "spike", "verts": vb, "faces": orient_star(vb, [(0, 1, 2), (0, 1, 3), (1, 2, 3), (2, 0, 3)], c),
+             "inner": c, "convex": True}
+        body = assemble([a, b], "interpenetrating-spike", True)
+        clear, _ = crossing_pairs(body["verts"], body["faces"])
+        if clear and {x for pr in clear for x in pr if body["owner"][x] == 0} == {i}:
+            return body
+    raise RuntimeError("no spike configuration found")
+
+
 def delete_faces(rng, base):
     n = len(base["faces"])
     k = rng.randint(1, max(1, n // 4))
@@ -600,8 +633,10 @@ def gen_base(rng, weights=None):
         return gen_duplicated(rng)
     if x < 0.80:
         return gen_interpenetrating(rng)
-    if x < 0.85:
+    if x < 0.83:
         return gen_needles(rng)
+    if x < 0.88:
+        return gen_spike(rng)
     b = rng.choice([gen_single, gen_disjoint_union, gen_duplicated])(rng)
     return delete_faces(rng, b)
 
@@ -787,7 +822,7 @@ def correspondence(ctx, built):
         ctx.bump("corr:" + label)
 
     # (a) geometric bodies and their derived meshes, real seed test
-    for _ in range(ctx.n(140, 1500)):
+    for _ in range(ctx.n(140, 3000)):
         base = gen_base(rng)
         if len(base["faces"]) > 70:
             continue
@@ -849,7 +884,7 @@ def run(ctx):
         "construction (star-shaped bodies: normal vs centre; torus: signed volume), field of the truth-wound body "
         "computed with all checks and the reorientation skipped",
     ]
-    ctx.partial += ["C16_propagation_consistent_partial"]
+    ctx.partial += ["C16_propagation_consistent_partial", "C16_propagation_step_partial"]
     built = ctx.build_props()
     if ctx.tier == "thorough" and built:
         ctx.coqchk("MV.Props.C16")
@@ -862,7 +897,7 @@ def run(ctx):
         ctx.add_broken("broken-correspondence", "Model/MeshExec.vo does not build", out[-1500:])
     run_guarded(ctx, lambda: correspondence(ctx, rc == 0), "C16 correspondence")
     big = bool(ctx.broken)
-    nb = ctx.n(60, 700) * (5 if big else 1)
+    nb = ctx.n(60, 2000) * (5 if big else 1)
     run_guarded(ctx, lambda: search(ctx, nb, ctx.n(6, 9)), "C16 search")
 
 
